@@ -42,8 +42,22 @@ type Sxhash struct {
 func (f *Sxhash) Call(s *slip.Scope, args slip.List, depth int) (result slip.Object) {
 	slip.CheckArgCount(s, depth, f, args, 1, 1)
 	var h uint64
-	for _, b := range sen.Bytes(slip.SimpleObject(args[0])) {
+	for _, b := range sen.Bytes(emptyAsNil(slip.Simplify(args[0]))) {
 		h += uint64(0xdf & b) // mask 0x20 to ignore ascii case, for others it doesn't matter
 	}
 	return slip.Fixnum(h & 0x7fffffffffffffff)
+}
+
+// emptyAsNil replaces every empty list in a simplified object with nil. The
+// empty list is nil whichever way it is represented so both hash the same.
+func emptyAsNil(v any) any {
+	if list, ok := v.([]any); ok {
+		if len(list) == 0 {
+			return nil
+		}
+		for i, e := range list {
+			list[i] = emptyAsNil(e)
+		}
+	}
+	return v
 }
